@@ -7,8 +7,8 @@ The file is #included unmodified (main renamed).  Two loop contracts close the l
         - messages are placed back to back: pdu_length == offset of the control header + cf_length,
         - the packet stays inside the 1500-byte buffer,
         - every frame the CAN socket delivered has been packed: (ghost count of successful read()s since loop entry) == i.
-prepare_acf_packet is replaced by its contract (the reference encoding of the frame at acf_pdu, frame clause = exactly the bytes of
-that message; enforced by obligation examples/acf-can-talker/prepare_acf_packet).  The trusted contract of sendto() carries the
+prepare_acf_packet is replaced by a weakening of its proved contract (obligation examples/acf-can-talker/prepare_acf_packet proves: the
+reference encoding of the frame at acf_pdu, frame clause = exactly the bytes of that message; used here: constant 80-byte frame, returned length).  The trusted contract of sendto() carries the
 property's second sentence as a precondition checked at the call: the enclosing TSCF/NTSCF header announces exactly the number of
 bytes that follow it in the datagram handed to the socket.
 
@@ -70,7 +70,7 @@ __CPROVER_ensures(__CPROVER_return_value >= 0 ==> vp_env_failed == __CPROVER_old
 
 # inner loop: while (i < num_acf_msgs)
 INNER = ('INV: 0 <= i && i <= num_acf_msgs && pdu_length == (use_udp ? 4 : 0) + cf_length && cf_length >= (use_tscf ? 24 : 12) && '
-         'pdu_length <= 1500 && vp_reads == __CPROVER_loop_entry(vp_reads) + (unsigned)i\n'
+         'pdu_length <= 1500 && vp_reads == __CPROVER_loop_entry(vp_reads) + (unsigned)i && pdu[(use_udp ? 4 : 0)] == (use_tscf ? 0x05 : 0x82)\n'
          'ASG: i, res, can_frame, pdu_length, cf_length, __CPROVER_object_whole(pdu), vp_reads\n')
 INNER_SYMS = ['i', 'res', 'can_frame', 'pdu_length', 'cf_length', 'pdu', '::num_acf_msgs', '::use_udp', '::use_tscf', '::vp_reads']
 OUTER = 'INV: 1 == 1\nASG: vp_env_failed, vp_reads, seq_num, udp_seq_num\n'
@@ -101,7 +101,17 @@ def talker_main_jobs(model, tier, config='le'):
     gen = ''
     for k, v in need.items():
         gen += G.format_contracts(model, model['fmts'][k], needed=set(v)).text()
-    prep = '\n'.join(l for l, _ in H5.prepare_contract_lines()) + '\n'
+    # prepare_acf_packet as USED here: a weakening of the contract that obligation examples/acf-can-talker/prepare_acf_packet proves
+    # (same preconditions on the frame, a LARGER frame clause - the constant 80-byte window instead of exactly 16+len+pad bytes -
+    # and only the returned length as postcondition).  The constant-size window keeps CBMC's havoc tractable.
+    prep = (
+        'static int vp_use_prepare_acf_packet(uint8_t* acf_pdu, frame_t frame)\n'
+        '__CPROVER_requires((unsigned)can_variant <= 1u && VP_LEN <= (VP_FD ? 64u : 8u))\n'
+        '__CPROVER_requires((VP_ID & CAN_EFF_FLAG) || (VP_ID & CAN_EFF_MASK) <= CAN_SFF_MASK)\n'
+        '__CPROVER_requires(frame.cc.len == frame.fd.len && frame.cc.can_id == frame.fd.can_id)\n'
+        '__CPROVER_requires(__CPROVER_w_ok(acf_pdu, 80u)) /*TAG C19:room-for-a-whole-acf-message-before-it-is-built*/\n'
+        '__CPROVER_assigns(__CPROVER_object_upto(acf_pdu, 80u))\n'
+        '__CPROVER_ensures(__CPROVER_return_value == (int)(16u + VP_LEN + VP_PADOF(VP_LEN)))\n;\n')
     src = (G.PRELUDE + 'size_t vp_i, vp_j, vp_extra;\n#include "vp_spec.h"\n#include "can.h"\n' + TALKER_ENV + gen +
            '#define main vp_talker_main\n#include "acf-can/acf-can-talker.c"\n#undef main\n'
            'int setup_can_socket(const char *c, Avtp_CanVariant_t v) { int s = nondet_int(); if (!s) vp_env_failed = 1; return s; }\n'
@@ -110,16 +120,23 @@ def talker_main_jobs(model, tier, config='le'):
            'int vp_talker_main(int argc, char *argv[])\n'
            '__CPROVER_assigns(vp_env_failed; vp_reads; seq_num; udp_seq_num)\n'
            '__CPROVER_ensures(vp_env_failed == 1) /*TAG C19:talker-leaves-its-sending-loop-only-if-a-system-call-failed*/\n;\n'
-           'void harness(void)\n{\n    use_udp = nondet_u8(); use_tscf = nondet_u8(); can_variant = (Avtp_CanVariant_t)nondet_uint(); num_acf_msgs = nondet_u8();\n'
+           'void harness(void)\n{\n    use_udp = VP_CFG_UDP; use_tscf = VP_CFG_TSCF; can_variant = (Avtp_CanVariant_t)nondet_uint(); num_acf_msgs = nondet_u8();\n'
            '    seq_num = nondet_u8(); udp_seq_num = nondet_u32(); vp_reads = nondet_uint(); vp_env_failed = 0;\n'
            '    vp_i = nondet_size(); vp_j = nondet_size(); vp_extra = 0; vp_wx = 0;\n'
            '    __CPROVER_assume(use_udp <= 1 && use_tscf <= 1 && (unsigned)can_variant <= 1u);\n'
            '    char *argv[1] = { 0 };\n    vp_talker_main(1, argv);\n    VP_CANARY();\n}\n')
     own = {'post': ['C19'], 'safety': ['C19'], 'assigns': ['C19'], 'loop': ['C19'], 'assert': ['C19']}
-    repl = [x for v in need.values() for x in v] + ['prepare_acf_packet', 'read', 'sendto']
-    job = Job('examples/acf-can-talker/main-sending-loop', src, [], enforce='vp_talker_main', replace=repl,
-              loop_contracts={'vp_talker_main': [{'template': OUTER, 'symbols': OUTER_SYMS, 'all_locals': True, 'loop_rank': 0},
-                                                 {'template': INNER, 'symbols': INNER_SYMS, 'loop_rank': 1}]},
-              owners=own, clause_map=_tags(src), function='acf-can-talker.c:main(sending loop)', kind='example', config=config,
-              includes=inc, timeout=1800, obj_bits=10, assumptions=TALKER_ASSUME)
-    return [job]
+    repl = [x for v in need.values() for x in v] + ['prepare_acf_packet/vp_use_prepare_acf_packet', 'read', 'sendto']
+    jobs = []
+    for udp in (0, 1):
+        for tscf in (0, 1):
+            # one obligation per transport x control format (constants: symbolic execution prunes the other branches);
+            # classic / FD stays symbolic
+            jobs.append(Job('examples/acf-can-talker/main-sending-loop/%s-%s' % ('udp' if udp else 'raw', 'tscf' if tscf else 'ntscf'), src, [],
+                            enforce='vp_talker_main', replace=repl,
+                            loop_contracts={'vp_talker_main': [{'template': OUTER, 'symbols': OUTER_SYMS, 'all_locals': True, 'loop_rank': 0},
+                                                               {'template': INNER, 'symbols': INNER_SYMS, 'loop_rank': 1}]},
+                            owners=own, clause_map=_tags(src), function='acf-can-talker.c:main(sending loop)', kind='example', config=config,
+                            includes=inc, timeout=1800, obj_bits=10, assumptions=TALKER_ASSUME,
+                            extra_cc=['-DVP_CFG_UDP=%d' % udp, '-DVP_CFG_TSCF=%d' % tscf]))
+    return jobs
